@@ -32,7 +32,9 @@ fn tail_token_inner(rng: &mut Rng, c: &CmdSpec, root: &CmdSpec, allow_non_utf8: 
     let names = level_names(c, &empty);
     let rnames = level_names(root, &empty);
     loop {
-        let t: Vec<u8> = match rng.below(18) {
+        let t: Vec<u8> = match rng.below(19) {
+            // bytes that are not UTF-8 around delimiter and dash characters (byte-for-byte clause)
+            18 => rng.pick(&[&b"a\xff,b"[..], b"\xff,", b",\xfe", b"x,\xfe\xff,y", b"--k\xff=a,b", b"-\xe9,z", b"\xc3,\xa9", b"t\xe2\x82,u", b"\xff\xff,,\xff"]).to_vec(),
             // delimiter characters inside a tail token (also leading / trailing / doubled)
             16 => rng.pick(&["a,b", "c,d,e", ",x", "y,", ",", "a,,b", "-Wl,-x", "--k=a,b"]).as_bytes().to_vec(),
             17 => format!("t{},u{}", rng.below(100), rng.below(100)).into_bytes(),
@@ -285,6 +287,9 @@ pub fn case(seed: u64, st: &mut Stats) {
         }
         let ntail = rng.below(6);
         let tail: Vec<Vec<u8>> = (0..ntail).map(|_| tail_token(&mut rng, lvl, &root, os_parser, term.as_deref())).collect();
+        if tail.iter().any(|t| std::str::from_utf8(t).is_err() && t.contains(&b',')) {
+            st.count("tail.non-utf8-with-delimiter");
+        }
         if term.is_some() && !tail.is_empty() {
             st.count("tail.terminator-declared");
         }
